@@ -69,7 +69,16 @@ func report(out *props.RunOut, seed uint64, wantTrace bool, t0 time.Time) *RunRe
 }
 
 // WorkerMain: reads "seed [trace]" lines from stdin, writes one RunReport JSON line per run.
+func loadKnownOpen() {
+	dir, _ := os.Getwd()
+	if d := os.Getenv("VERIF_DIR"); d != "" {
+		dir = d
+	}
+	props.LoadKnownOpen(dir)
+}
+
 func WorkerMain(propID, tier string) int {
+	loadKnownOpen()
 	out := SilenceStdout()
 	p, ok := props.Registry[propID]
 	if !ok {
@@ -107,6 +116,7 @@ func WorkerMain(propID, tier string) int {
 
 // ReplayMain: replays one trace file ("-" = stdin); prints a RunReport; exit 1 if a violation fired.
 func ReplayMain(path string, quiet bool) int {
+	loadKnownOpen()
 	var data []byte
 	var err error
 	if path == "-" {
